@@ -1,7 +1,7 @@
 (* Table/WireProofs.v — the byte-layer instance satisfies the hypotheses of the theorems: the real
    record size is positive, and the real BlockMetadata codec round-trips on the u64 range. *)
 From Coq Require Import NArith ZArith List Bool Lia.
-From Blue Require Import Table.Model Table.ModelSst Table.ModelWire.
+From Blue Require Import Gen.Const_Table Table.Model Table.ModelSst Table.ModelWire Table.BuildProofs.
 Import ListNotations.
 Open Scope N_scope.
 
@@ -39,4 +39,46 @@ Proof.
   intros s l Hs Hl. unfold meta_enc_real, meta_dec_real. cbn [app].
   rewrite (varint_rt s _ Hs). cbn [app].
   rewrite (varint_rt l _ Hl). reflexivity.
+Qed.
+
+(* ---------------------------------------------------------------- size bounds of the instance *)
+Lemma varint_size_le : forall x, x <= U64_MAX -> varint_size x <= 10.
+Proof.
+  intros x H. unfold varint_size.
+  assert (N.log2 x <= 63).
+  { change 63 with (N.log2 U64_MAX). now apply N.log2_le_mono. }
+  assert (N.log2 x / 7 <= 9).
+  { change 9 with (63 / 7). apply N.div_le_mono; [discriminate|assumption]. }
+  lia.
+Qed.
+
+Theorem enc_size_real_bounded : size_bounded enc_size_real.
+Proof.
+  intros be Hf Hv Hs Ht. unfold enc_size_real, body_size.
+  assert (U1 : MAX_KEY_LEN <= U64_MAX) by (unfold MAX_KEY_LEN, U64_MAX; lia).
+  pose proof (varint_size_le (be_shared be) ltac:(lia)) as V1.
+  pose proof (varint_size_le (len (be_frag be)) ltac:(lia)) as V2.
+  pose proof (varint_size_le (be_ts be) Ht) as V3.
+  assert (Hval : match be_val be with Some v => 1 + varint_size (len v) + len v | None => 0 end <= 1 + 10 + MAX_VALUE_LEN).
+  { destruct (be_val be) as [v|]; [|lia]. specialize (Hv v eq_refl).
+    pose proof (varint_size_le (len v) ltac:(unfold MAX_VALUE_LEN, U64_MAX in *; lia)). lia. }
+  set (val := match be_val be with Some v => 1 + varint_size (len v) + len v | None => 0 end) in *.
+  set (body := 1 + varint_size (be_shared be) + 1 + varint_size (len (be_frag be)) + len (be_frag be) + 1
+               + varint_size (be_ts be) + val).
+  assert (Hbody : body <= 49196) by (unfold body; unfold MAX_KEY_LEN, MAX_VALUE_LEN in *; lia).
+  pose proof (varint_size_le body ltac:(unfold U64_MAX; lia)) as V4.
+  unfold U32_MAX, TABLE_FULL_SIZE. lia.
+Qed.
+
+Lemma varint_fuel_length : forall f n, (length (varint_fuel f n) <= f)%nat.
+Proof.
+  induction f as [|g IH]; intros n; cbn [varint_fuel length]; [lia|].
+  destruct (n <? 128); cbn [length]; [lia|]. specialize (IH (n / 128)). lia.
+Qed.
+
+Theorem meta_enc_real_short : forall s l, len (meta_enc_real s l) <= MAX_VALUE_LEN.
+Proof.
+  intros s l. unfold meta_enc_real, len. rewrite !app_length. cbn [length].
+  pose proof (varint_fuel_length 10 s). pose proof (varint_fuel_length 10 l). unfold varint.
+  unfold MAX_VALUE_LEN. lia.
 Qed.
